@@ -9,8 +9,10 @@ Global Instance Hprec : FLX.Prec_gt_0 prec. Proof. unfold FLX.Prec_gt_0, prec; l
 Global Instance Hmax : Prec_lt_emax prec emax. Proof. unfold Prec_lt_emax, prec, emax; lia. Qed.
 Definition f64 := BinarySingleNaN.binary_float prec emax.
 
-Definition of_bits (z : Z) : f64 := Binary.B2BSN prec emax (Bits.b64_of_bits z).
-Definition to_bits (x : f64) : Z := Bits.bits_of_b64 (Binary.BSN2B prec emax Bits.default_nan_pl64 x).
+(* bit patterns travel as Go int64 (two's complement of the uint64 pattern) *)
+Definition of_bits (z : Z) : f64 := Binary.B2BSN prec emax (Bits.b64_of_bits (z mod 2^64)).
+Definition to_ubits (x : f64) : Z := Bits.bits_of_b64 (Binary.BSN2B prec emax Bits.default_nan_pl64 x).
+Definition to_bits (x : f64) : Z := let u := to_ubits x in if u <? 2^63 then u else u - 2^64.
 Definition of_int (z : Z) : f64 := binary_normalize prec emax _ _ mode_NE z 0 false.
 Definition mul : f64 -> f64 -> f64 := BinarySingleNaN.Bmult mode_NE.
 Definition add : f64 -> f64 -> f64 := BinarySingleNaN.Bplus mode_NE.
